@@ -12,7 +12,9 @@ META = {
         "the result of the displacement search used only under the != 0xffffffff guard - this covers probing across the end; "
         "(2) mutation discipline: removal's success path stores the invalid-key marker, clears the value and clears exactly the "
         "bit wrap(pos - home) in the HOME bucket's hop word; insertion writes key, value and sets bit <distance> in the home "
-        "bucket only after the duplicate scan, refuses the invalid key; lookup performs no store through the table; "
+        "bucket only after the duplicate scan, refuses the invalid key; displacement copies exactly key and value into the freed "
+        "slot and rewrites only the checked bucket's hop word; an insertion that gives up after displacing marks the slot it "
+        "vacated free again (a refused insertion leaves no stale key behind); lookup performs no store through the table; "
         "(3) sweep safety: code outside hashtable.h that walks slots by index only calls remove on that table inside the walk "
         "and passes the key read from the slot."),
     "not_decided": "that the tables are exact finite maps (displacement correctness, refusal condition, collisions): functional "
@@ -300,6 +302,32 @@ def clause2_mutation(ctx, P, T):
            "displacement must copy exactly key and value into the freed slot and rewrite only the checked bucket's hop word "
            "(fields written at the freed slot: %s, whole-slot copies: %d, hop word stores: %d) - copying the hop word orphans the "
            "entries homed at the freed slot" % (sorted(fields_free), len(whole), len(hop_sites)))
+    # a refused insertion leaves no stale slot: when put() gives up after displacing, the slot that the last successful
+    # displacement vacated still holds a copy of the moved key; it must be marked free again, else it is lost for good
+    FULL = Q.macro(P, "router.c", "HASHTABLE_FULL")
+    stale = None
+    ngive = 0
+    for v in Q.path_views(ctx, P, put):
+        if v.ret_const() != FULL:
+            continue
+        calls = [(k, i) for k, i in v.calls() if i.callee == fc.name]
+        if not calls:
+            continue
+        ngive += 1
+        k_last, c_last = calls[-1]
+        slot = P.term(put, c_last.a[1])
+        freed = False
+        for k, i in v.insts():
+            if k > k_last and i.op == "store":
+                sf = _slot_field_store(P, put, i)
+                if sf and sf[1] == "key" and P.term(put, i.a[0]) == ("const", -1) and sf[0] == slot:
+                    freed = True
+        if not freed:
+            stale = v
+    ctx.ob("C17.2 R-TYPESTATE", put, "refused-insertion-leaves-no-stale-slot", stale is None and ngive > 0,
+           "put() returns HASHTABLE_FULL after find_closer_entry() without marking the slot it passed to the last call free again: "
+           "after a successful displacement that slot holds a stale copy of the moved key, no lookup reaches it and every later probe "
+           "takes it for occupied", witness=stale.witness() if stale else None)
     if T.get is not None:
         stores = []
         for i in T.get.all_insts():
